@@ -860,6 +860,20 @@ class Machine:
 			msg = M.truthful(list(vec._underlying), vec.schema())
 			if msg:
 				chk.fail("the reported dtype is truthful", f"truth/{h.prov}", f"{h!r}: {msg}; trace {self.tail()}", prop="C03")
+		if is_table(x) and len(x) and x.cols() and all(isinstance(c, Vector) and not isinstance(c, Table) for c in x.cols()):
+			# a row is a vector too: the dtype it reports (and hands on to row.copy() / row[a:b]) must cover its cells
+			i = self.rng.randrange(len(x))
+			o = call(lambda: (x[i], x[i].copy()))
+			if o.ok:
+				for r, lab in zip(o.value, ("row", "row.copy()")):
+					vals = list(r)
+					if any(isinstance(e, Vector) for e in vals):
+						continue
+					chk.counters["truth:rows-checked"] += 1
+					msg = M.truthful(vals, r.schema())
+					if msg:
+						chk.fail("the reported dtype is truthful", f"truth/{lab}/{h.prov}", f"{h!r}: {lab} {i} = {short(vals, 120)} reports {r.schema()!r}: {msg}; trace {self.tail()}", prop="C03")
+						break
 
 	def check_fresh(self, h):
 		chk = self.chk
@@ -1086,6 +1100,23 @@ def rect_violation(t):
 	it = [tuple(r) for r in t]
 	if len(it) != n or any(not M.same_list(a, b) for a, b in zip(it, rows)):
 		return ("iteration-disagrees-with-columns", f"iterated rows {short(it, 160)} vs columns {short(rows, 160)}")
+	if cols and n:
+		# the rows of one iteration used AS VECTORS (slice, isna): these go through the row's materialised cells, not the raw columns
+		k = len(cols)
+		o = call(lambda: [(tuple(r[0:k]), tuple(r.isna())) for r in t])
+		if o.ok:
+			for i, (sl, na) in enumerate(o.value):
+				if not M.same_list(sl, rows[i]) or list(na) != [x is None for x in rows[i]]:
+					return ("iterated-row-as-vector-disagrees-with-columns", f"row {i} of one iteration: row[0:{k}] = {sl!r}, row.isna() = {na!r} vs columns {rows[i]!r}")
+		if n > 1 and hasattr(Row, "set_index"):
+			def moved():
+				r = t[0]
+				r.isna()
+				r.set_index(n - 1)
+				return tuple(r[0:k]), tuple(r)
+			o = call(moved)
+			if o.ok and not (M.same_list(o.value[0], rows[n - 1]) and M.same_list(o.value[1], rows[n - 1])):
+				return ("moved-row-disagrees-with-columns", f"t[0] used, then set_index({n - 1}): row[0:{k}] = {o.value[0]!r}, tuple(row) = {o.value[1]!r} vs columns {rows[n - 1]!r}")
 	for i in ([0, n - 1, n // 2] if n else []):
 		r = tuple(t[i])
 		if not M.same_list(r, rows[i]):
